@@ -39,14 +39,13 @@ SHRINK_LISTS = ["workloads"]
 def gen_workload(rng, allow_rdflib_graphs_gen=False):
     integration = rng.choice(["generic", "generic", "rdflib"])
     physical = rng.choice(["TRIPLES", "QUADS", "GRAPHS"])
+    if integration == "rdflib" and physical == "GRAPHS" and not allow_rdflib_graphs_gen:
+        physical = "QUADS"      # rdflib GraphStream + generator regroups through a set: known finding, kept out
     stmts, flags, sizes, _ = c01.gen_workload(rng, physical, rdflib_safe=integration == "rdflib", max_n=12)
     mp, mn, md = c01.fit_tables(rng, stmts, [], sizes, physical)
     if md == 0 and W.has_datatypes(stmts):
         md = max(1, W.max_needs(stmts)[2])
     entry = rng.choice(["frames_gen", "frames_gen", "flat_frames"]) if physical != "GRAPHS" else "frames_gen"
-    if integration == "rdflib" and physical == "GRAPHS" and not allow_rdflib_graphs_gen:
-        physical = "QUADS"      # rdflib GraphStream + generator regroups through a set: known finding, kept out
-        stmts = stmts
     cfg = nodes.default_cfg(integration=integration, physical=physical, logical=1 if physical == "TRIPLES" else 2,
                             delimited=True, frame_size=rng.choice([1, 2, 3, 250]), max_names=mn, max_prefixes=mp,
                             max_datatypes=md, generalized=flags["generalized"], rdf_star=flags["rdf_star"], entry=entry)
